@@ -294,7 +294,8 @@ Fixpoint eitherok (v : val) : bool :=
   end.
 Fixpoint wfb (v : val) : bool :=
   match v with
-  | Num _ | Idx _ _ | MNone => true
+  | Num _ | MNone => true
+  | Idx _ l => negb (length l =? 0)%nat
   | Arr s d => posb s && (zlen d =? prod s)
   | MSome a => wfb a
   | ELeft a | ERight a => wfb a && eitherok a
@@ -307,3 +308,18 @@ Fixpoint noeither (v : val) : bool :=
   | Tuple l => forallb noeither l
   | _ => true
   end.
+(* no tuple-of-integers container anywhere (such a container is an index array but not an ndarray, so
+   detail::same_concept never matches it against an either alternative) *)
+Fixpoint notup (v : val) : bool :=
+  match v with
+  | Idx k _ => ndk k
+  | MSome a | ELeft a | ERight a => notup a
+  | Tuple l => forallb notup l
+  | _ => true
+  end.
+(* pairs covered by the theorems: no either at all, or no tuple-of-integers at all *)
+Definition pair_dom (x y : val) : bool := (noeither x && noeither y) || (notup x && notup y).
+
+(* isclose on two INTEGER scalars subtracts in the operands' common type before taking fabs
+   (isclose.hpp:267): when one of them is unsigned (size_t) the difference wraps modulo 2^w. *)
+Definition close_unsigned (w eps a b : Z) : bool := wrap w (a - b) <? eps.
